@@ -68,6 +68,20 @@ def gen_cases(c, scale):
     add = cases.append
     for cs in form_cases(rng, 400 * scale):
         add(cs)
+    # template filters over objects that write in several pieces (short head + long body, around the
+    # filter buffers' sizes 16/128/256, bytewise pieces, empty pieces)
+    for _ in range(300 * scale):
+        kind = rng.choice(("escape", "urlencode", "base64"))
+        n = rng.randrange(1, 5)
+        ps = []
+        for j in range(n):
+            ln = rng.choice((0, 1, 2, 15, 16, 17, 100, 127, 128, 129, 255, 256, 257, 300, rng.randrange(0, 700)))
+            ps.append(rand_bytes(rng, ln, rng.randrange(3)))
+        add("fltN " + kind + " " + " ".join(hexs(x) for x in ps))
+    for head in (1, 5, 127):
+        for body in (16, 128, 129, 512):
+            for kind in ("escape", "urlencode", "base64"):
+                add("fltN " + kind + " " + hexs(bytes((65 + i) % 90 + 33 for i in range(head))) + " " + hexs(rand_bytes(rng, body, 1)))
     # exhaustive: all strings of length 0..1, all of length 2 (thorough) or a sample (quick)
     short = [b""] + [bytes([a]) for a in range(256)]
     if c.tier == "thorough":
@@ -131,6 +145,25 @@ def judge_lines(cases, out_i):
                 res.append((k, None, False))
             continue
         base = op.split("_")[0].replace("raw", "")
+        if op == "fltN":
+            whole = hexs(b"".join(unhex(x) for x in w[2:]))
+            jb = {"escape": "escape", "urlencode": "urlencode", "base64": "b64enc"}[w[1]]
+            if re.fullmatch(r"[0-9a-f]+|-", o):
+                res.append((k, f"J {jb} {whole} {o}", None))
+                if jb == "urlencode":
+                    import urllib.parse as _u
+                    res.append((k, None, _u.unquote_to_bytes(unhex(o)) == unhex(whole)))
+                if jb == "b64enc":
+                    import base64 as _b64
+                    txt = unhex(o)
+                    try:
+                        ok = len(txt) % 4 != 1 and _b64.urlsafe_b64decode(txt + b"=" * (-len(txt) % 4)) == unhex(whole)
+                    except Exception:
+                        ok = False
+                    res.append((k, None, ok))
+            else:
+                res.append((k, None, False))
+            continue
         if base in ("escape", "urlencode", "b64enc") and op != "escapesb":
             o1 = o[:-2] if op == "urlencode_sb" and o.endswith(" 1") else o
             if re.fullmatch(r"[0-9a-f]+|-", o1):
